@@ -17,13 +17,16 @@ def lookupKey (k : List Str) : List (List Str × Nat) → Option Nat
   | [] => none
   | (k', l) :: rest => if k' == k then some l else lookupKey k rest
 
+/-- the tuple of key-field values of a row -/
+def keyOf (keyCols : List Nat) (row : Row) : List Str := keyCols.map (fun i => row.getD i [])
+
 /-- `IsUniqueCheck` over the columns `keyCols` -/
 def isUniqueCheck (keyCols : List Nat) : Check CState where
   reset := .unique []
   row := fun st row line =>
     match st with
     | .unique seen =>
-      let key := keyCols.map (fun i => row.getD i [])
+      let key := keyOf keyCols row
       match lookupKey key seen with
       | some first => (st, some ⟨some first⟩)
       | none => (.unique (seen ++ [(key, line)]), none)
@@ -121,5 +124,18 @@ def parseDistinctCount (rule : Str) (names : List Str) : Out (Nat × Cmp × Int)
             | some c, some n => pure (col, c, (n : Int))
             | _, _ => .error .unsupported
         | .ok _ => .error .unsupported
+
+end Cutplace
+
+namespace Cutplace
+
+/-- a check applied to a sequence of (row, line) pairs that reach it, threading its state:
+the vetoes it raises and the state it ends in -/
+def seqVerdicts {σ} (c : Check σ) : σ → List (Row × Nat) → List (Option Veto) × σ
+  | s, [] => ([], s)
+  | s, (row, line) :: rest =>
+    let (s', v) := c.row s row line
+    let r := seqVerdicts c s' rest
+    (v :: r.1, r.2)
 
 end Cutplace
